@@ -2967,6 +2967,16 @@ func (dsc *dataStoreCommand) setRemove(keyName string, members []string) (output
 	return
 }
 
+// Empties the database in place. The database object itself stays, because every
+// connection that selected it, every WATCH and every blocked client holds a pointer to it.
+func (dsc *dataStoreCommand) flush() {
+	dsc.lock()
+	defer dsc.unlock()
+
+	dsc.ds.data = newRedisDict()
+	dsc.setDirty()
+}
+
 func (dsc *dataStoreCommand) save(l lane.Lane, path string) (err error) {
 	if dsc.ds.data.dirty {
 		dsc.lock()
